@@ -86,6 +86,36 @@ CHECKS.update({
              'dependence hides.'),
 })
 
+RT_TECH = ('TLA+ spec of the format fragment and of what a cycle must keep (FMFormats.tla: InFrag, PreserveClauses, cycle rule); TLC enumerates '
+                  'every model of the fragment up to the family bounds; Write/Read histories replayed through the real writer and reader; '
+                  'recorded events judged by trace validation')
+CHECKS.update({
+    'C05': dict(technique=RT_TECH, design_ref='DESIGN.md section 8 (C01, C05-C08)',
+        text='Every model of the JSON fragment up to the bounds (all tree shapes and relation kinds the format expresses, constraints of depth 1 over '
+             'the model and every tree of depth 2 over two names, decorations) under the plain naming and one naming per admissible character class: '
+             'k write/read cycles; TLC checks after the first read that names, parents, groups (members and cardinalities), flags, attributes are '
+             'kept and constraints are one-to-one logically equivalent (truth tables), that the second and later read-backs equal the first exactly and '
+             'the text stops changing, plus well-formedness of everything read. Parsing the already-loaded JSON object must give the same model as reading the file. All n >= 1 cycles follow by induction from these two facts.'),
+    'C06': dict(technique=RT_TECH, design_ref='DESIGN.md section 8 (C01, C05-C08)',
+        text='Every model of the AFM fragment up to the bounds (all tree shapes and relation kinds the format expresses, constraints of depth 1 over '
+             'the model and every tree of depth 2 over two names, decorations) under the plain naming and one naming per admissible character class: '
+             'k write/read cycles; TLC checks after the first read that names, parents, groups (members and cardinalities), flags, attributes are '
+             'kept and constraints are one-to-one logically equivalent (truth tables), that the second and later read-backs equal the first exactly and '
+             'the text stops changing, plus well-formedness of everything read. Attributes with integer-range and enumerated domains, default and null values are compared as typed tokens. All n >= 1 cycles follow by induction from these two facts.'),
+    'C07': dict(technique=RT_TECH, design_ref='DESIGN.md section 8 (C01, C05-C08)',
+        text='Every model of the FeatureIDE fragment up to the bounds (all tree shapes and relation kinds the format expresses, constraints of depth 1 over '
+             'the model and every tree of depth 2 over two names, decorations) under the plain naming and one naming per admissible character class: '
+             'k write/read cycles; TLC checks after the first read that names, parents, groups (members and cardinalities), flags, attributes are '
+             'kept and constraints are one-to-one logically equivalent (truth tables), that the second and later read-backs equal the first exactly and '
+             'the text stops changing, plus well-formedness of everything read. Models without constraints and single-literal constraints are included. All n >= 1 cycles follow by induction from these two facts.'),
+    'C08': dict(technique=RT_TECH, design_ref='DESIGN.md section 8 (C01, C05-C08)',
+        text='Every model of the Glencoe fragment up to the bounds (all tree shapes and relation kinds the format expresses, constraints of depth 1 over '
+             'the model and every tree of depth 2 over two names, decorations) under the plain naming and one naming per admissible character class: '
+             'k write/read cycles; TLC checks after the first read that names, parents, groups (members and cardinalities), flags, attributes are '
+             'kept and constraints are one-to-one logically equivalent (truth tables), that the second and later read-backs equal the first exactly and '
+             'the text stops changing, plus well-formedness of everything read. Constraint names must be kept. All n >= 1 cycles follow by induction from these two facts.'),
+})
+
 REASON_TODO = 'check not built yet (build in progress; see DESIGN.md section 12)'
 
 
